@@ -14,6 +14,7 @@ import (
 
 	"example.com/scion-time/core/client"
 	"example.com/scion-time/net/nts"
+	"example.com/scion-time/net/ntske"
 
 	"verif/harness/internal/ev"
 	"verif/harness/internal/peer"
@@ -429,10 +430,243 @@ func c11ServerLeg(r *ev.Run) {
 	}
 }
 
+// ---- leg C: server key rotations in between (key provider aged through its verif hook)
+//
+// The listener process is told to age its keys by hours to days between exchanges. The
+// harness keeps, for every cookie it holds, the time since it was issued, and asks the hook
+// for the age of every key; the key identifier is the clear-text head of a cookie.
+// Oracle: a cookie issued at most two days ago is served; a cookie whose key was generated
+// more than three days ago is not; every cookie of a reply (and of a key exchange) is sealed
+// under a key generated at most 24 h before, and is itself accepted later under the same
+// session keys.
+func c11Rotation(r *ev.Run, block int) {
+	const hour = int64(time.Hour)
+	const slack = int64(2 * time.Minute) // real time that passes during a scenario
+	steps := []int64{1 * hour, 6 * hour, 12 * hour, 23 * hour, 25 * hour, 30 * hour, 47 * hour, 49 * hour, 71 * hour, 73 * hour, 100 * hour}
+	rng := r.Rng("c11rot")
+	nScen := r.Pick(6, 60)
+	for k := 0; k < nScen; k++ {
+		sid := fmt.Sprintf("rot%d", k)
+		var plan []int64
+		for i := 0; i < 6+rng.IntN(8); i++ {
+			d := steps[rng.IntN(len(steps))]
+			if k%3 == 0 { // short steps: several generations alive at once
+				d = steps[rng.IntN(6)]
+			}
+			plan = append(plan, d)
+		}
+		if r.Only() != "" && r.Only() != sid {
+			continue
+		}
+		func() {
+			srv, cli := blockIP(r, block, 23), blockIP(r, block, 24)
+			tgt, err := StartTarget("plain", "-ip", srv.String(), "-kinds", "ip,ntske")
+			if err != nil {
+				r.Inconclusive("target: " + err.Error())
+				return
+			}
+			defer tgt.Kill()
+			d, err := fetchNTS(srv)
+			if err != nil || len(d.Cookie) != 8 {
+				r.Inconclusive(fmt.Sprint("key exchange with the target failed: ", err))
+				return
+			}
+			uc, err := peer.NewUDPClient(cli)
+			if err != nil {
+				r.Inconclusive(err.Error())
+				return
+			}
+			defer uc.Close()
+			dst := netip.AddrPortFrom(srv, 123)
+			keyID := func(c []byte) int {
+				if len(c) < 6 {
+					return -1
+				}
+				return int(binary.BigEndian.Uint16(c[4:]))
+			}
+			var pool []c11Held
+			for _, c := range d.Cookie {
+				pool = append(pool, c11Held{c, 0, d})
+			}
+			checkSealed := func(what string, cookies [][]byte, w map[string]any) {
+				keys, ok := tgt.Keys("KEYS", 5*time.Second)
+				if !ok {
+					r.Inconclusive("target did not report its keys")
+					return
+				}
+				for _, c := range cookies {
+					age, known := keys[keyID(c)]
+					w["cookie_key_id"], w["keys_ns"] = keyID(c), keys
+					if !known {
+						r.Violation("nts-listener|wrong-reply:fresh cookie names a key the provider does not hold|"+what, sid, w)
+						return
+					}
+					if age > 24*hour+slack {
+						w["key_age_h"] = float64(age) / float64(hour)
+						r.Violation("nts-listener|wrong-reply:fresh cookie sealed under a key generated more than 24 h before|"+what, sid, w)
+						return
+					}
+				}
+				r.Class("fresh cookies sealed under a key of at most 24 h|" + what)
+			}
+			var elapsed int64
+			for si, dAge := range plan {
+				keys, ok := tgt.Keys(fmt.Sprintf("AGE %d", dAge), 5*time.Second)
+				if !ok {
+					r.Inconclusive("target did not answer the AGE command")
+					return
+				}
+				elapsed += dAge
+				for i := range pool {
+					pool[i].issued += dAge
+				}
+				// a fresh key exchange now and then: its cookies must be sealed under a young key
+				if rng.IntN(3) == 0 {
+					if d2, err := fetchNTS(srv); err == nil && len(d2.Cookie) == 8 {
+						r.Eval(1)
+						checkSealed("key exchange", d2.Cookie, map[string]any{"step": si, "elapsed_h": elapsed / hour})
+						for _, c := range d2.Cookie[:2] {
+							pool = append(pool, c11Held{c, 0, d2})
+						}
+					} else {
+						r.Violation("nts-ke-listener|missing-reply:key exchange failed after the keys aged", sid, map[string]any{"step": si, "error": fmt.Sprint(err)})
+					}
+				}
+				// spend up to three cookies of different ages
+				for n := 0; n < 3 && len(pool) > 0; n++ {
+					i := rng.IntN(len(pool))
+					if n == 0 { // the oldest one first
+						for j := range pool {
+							if pool[j].issued > pool[i].issued {
+								i = j
+							}
+						}
+					}
+					h := pool[i]
+					pool = append(pool[:i], pool[i+1:]...)
+					if keys, ok = tgt.Keys("KEYS", 5*time.Second); !ok { // keys generated since the last report
+						r.Inconclusive("target did not report its keys")
+						return
+					}
+					kAge, held := keys[keyID(h.c)]
+					np := rng.IntN(8)
+					hdr := peer.NTPRequest(peer.UniqueTime64())
+					uid := randBytes(rng, 32)
+					pkt := peer.NTSRequest(hdr, uid, h.c, np, h.d.C2sKey)
+					if err := uc.Send(dst, pkt); err != nil {
+						r.Inconclusive(err.Error())
+						return
+					}
+					tx := binary.BigEndian.Uint64(hdr[40:])
+					mustServe := h.issued <= 48*hour-slack
+					mustRefuse := !held || kAge > 72*hour+slack
+					// a plain request right behind it on the same socket (same listener goroutine): once
+					// its reply is here, a missing reply to the cookie request is decided
+					sent := peer.NTPRequest(peer.UniqueTime64())
+					stx := binary.BigEndian.Uint64(sent[40:])
+					if err := uc.Send(dst, sent); err != nil {
+						r.Inconclusive(err.Error())
+						return
+					}
+					_, hit := uc.ReadUntil(3*time.Second, func(dg peer.Datagram) bool {
+						o := peer.NTPOrigin(dg.Data)
+						return o == tx || o == stx
+					})
+					if hit == nil {
+						if tgt.Alive() {
+							r.Violation("nts-listener|missing-reply:plain request after key ageing not answered", sid, map[string]any{"step": si})
+							return
+						}
+					} else if peer.NTPOrigin(hit.Data) == stx {
+						hit = nil
+					} else {
+						uc.ReadUntil(time.Second, func(dg peer.Datagram) bool { return peer.NTPOrigin(dg.Data) == stx })
+					}
+					r.Eval(1)
+					w := map[string]any{"step": si, "plan_h": planHours(plan), "cookie_issued_h_ago": float64(h.issued) / float64(hour), "cookie_key_id": keyID(h.c),
+						"key_age_h": float64(kAge) / float64(hour), "key_held": held, "placeholders": np}
+					if !tgt.Alive() {
+						first, frame := tgt.ExitInfo()
+						w["panic"], w["frame"] = first, frame
+						r.Violation("nts-listener|panic|request after key ageing", sid, w)
+						return
+					}
+					switch {
+					case hit == nil && mustServe:
+						r.Violation("nts-listener|missing-reply:cookie issued at most two days ago no longer served", sid, w)
+						continue
+					case hit != nil && mustRefuse:
+						r.Violation("nts-listener|unexpected-reply:cookie served more than three days after its key was generated", sid, w)
+					case hit == nil:
+						if mustRefuse {
+							r.Class("cookie of a retired key refused")
+						} else {
+							r.Class("cookie between two and three days: refused")
+						}
+						continue
+					}
+					if mustServe {
+						r.Class(fmt.Sprintf("cookie issued %s ago served", hBucket(h.issued)))
+					} else if !mustRefuse {
+						r.Class("cookie between two and three days: served")
+					}
+					fresh, problem := peer.NTSOpenResponse(hit.Data, h.d.S2cKey, uid)
+					if problem != "" {
+						w["problem"] = problem
+						r.Violation("nts-listener|wrong-reply:reply cannot be authenticated by the requester|after key ageing", sid, w)
+						continue
+					}
+					checkSealed("ntp reply", fresh, w)
+					for _, c := range fresh {
+						if len(pool) < 24 {
+							pool = append(pool, c11Held{c, 0, h.d})
+						}
+					}
+				}
+			}
+			r.Distinct(fmt.Sprint("rot", plan))
+		}()
+		if r.NumViolations() > 8 {
+			return
+		}
+	}
+}
+
+type c11Held struct {
+	c      []byte
+	issued int64 // ns since the cookie was received
+	d      ntske.Data
+}
+
+func planHours(p []int64) []int64 {
+	out := make([]int64, len(p))
+	for i, d := range p {
+		out[i] = d / int64(time.Hour)
+	}
+	return out
+}
+
+func hBucket(ns int64) string {
+	h := ns / int64(time.Hour)
+	switch {
+	case h == 0:
+		return "0 h"
+	case h <= 24:
+		return "<= 24 h"
+	default:
+		return "24-48 h"
+	}
+}
+
 func init() {
 	Legs["c11server"] = func(args []string) {
 		r := ev.NewLeg("C11")
-		c11ServerLeg(r)
+		if r.Only() == "" || !strings.HasPrefix(r.Only(), "rot") {
+			c11ServerLeg(r)
+		}
+		if r.Only() == "" || strings.HasPrefix(r.Only(), "rot") {
+			c11Rotation(r, 11)
+		}
 		r.FinishLeg()
 	}
 	register("C11", "fault_enumeration", func(r *ev.Run) {
@@ -441,7 +675,7 @@ func init() {
 		if r.Only() != "" {
 			env = append(env, "VERIF_ONLY="+r.Only())
 		}
-		if r.Only() == "" || r.Only()[0] == 'b' {
+		if r.Only() == "" || r.Only()[0] == 'b' || strings.HasPrefix(r.Only(), "rot") {
 			if o := r.RunLeg("plain", "c11server", 20*time.Minute, env); !o.OK {
 				r.Inconclusive("server leg did not finish: " + o.Stderr)
 			}
@@ -451,6 +685,7 @@ func init() {
 		r.Finish("leg A: the real IP client with NTS through every loss pattern of length L over {delivered, lost} (L=7 quick, 10 thorough; exhaustive) plus drains to an empty pool with re-keying and long random patterns; the scripted peer parses every request "+
 			"(field types, cookie tag, placeholder count and body length, total length, authenticator) and tracks the pool level implied by what it issued and withheld. Oracle: no cookie twice, exactly one cookie field, 8 - level placeholder fields of type 0x0304, "+
 			"length <= nts.MaxPacketLen at every level, request authenticates, delivered exchanges succeed, the pool never exceeds eight. leg B: the monitor as client of the real NTS-KE and NTP listeners with 1 cookie + 0..7 placeholders: reply <= nts.MaxPacketLen bytes, authenticates under S2C with the request's id, "+
-			"carries the requested number of (or as many as fit) pairwise distinct fresh cookies, each accepted later. distinct_nontrivial = distinct loss patterns", 8)
+			"carries the requested number of (or as many as fit) pairwise distinct fresh cookies, each accepted later. leg C: the listener process ages its keys (verif hook of the provider) by 1 h .. 100 h between exchanges: cookies issued <= 2 days ago served, cookies of keys generated > 3 days ago refused, "+
+			"every cookie of a reply or key exchange sealed under a key generated <= 24 h before (key id = clear-text head of the cookie, key ages from the hook). distinct_nontrivial = distinct loss patterns and ageing plans", 8)
 	})
 }
